@@ -170,6 +170,39 @@ mod __verif_c33 {
         }
     }
 
+    // @harness tiers=thorough timeout=1200
+    // @encodes execution::memory::MemoryPool::try_allocate, execution::memory::MemoryReservation::drop, execution::memory::MemoryPool::release
+    // @bounds as try_allocate_then_drop_under_interference with up to 6 lost CAS races (interference before each of the first 6 attempts)
+    // @oracle as try_allocate_then_drop_under_interference
+    // @replay none:the counterexample is an interleaving chosen by stubbed atomics
+    #[kani::proof]
+    #[kani::unwind(9)]
+    #[kani::stub(std::sync::atomic::Atomic::<usize>::load, stub_load)]
+    #[kani::stub(std::sync::atomic::Atomic::<usize>::compare_exchange_weak, stub_cas_weak)]
+    #[kani::stub(std::sync::atomic::Atomic::<usize>::fetch_add, stub_fetch_add)]
+    #[kani::stub(std::sync::atomic::Atomic::<usize>::fetch_sub, stub_fetch_sub)]
+    fn try_allocate_under_six_lost_races() {
+        unsafe {
+            let (pool, held) = setup(6);
+            let size: usize = kani::any();
+            let r = pool.try_allocate(size);
+            match r {
+                Some(res) => {
+                    kani::cover!(CAS_FAILS == 6 && size > 0);
+                    assert!(res.size() == size, "C33.reservation_records_its_size");
+                    post(&pool, held.wrapping_add(size));
+                    drop(res);
+                    post(&pool, held);
+                }
+                None => {
+                    kani::cover!(CAS_FAILS >= 5);
+                    assert!(LAST_SEEN.checked_add(size).map_or(true, |n| n > MAX), "C33.refusal_only_when_over_limit");
+                    post(&pool, held);
+                }
+            }
+        }
+    }
+
     // @harness tiers=quick,thorough
     // @encodes execution::memory::MemoryPool::allocate, execution::memory::MemoryReservation::resize, execution::memory::MemoryReservation::drop, execution::memory::MemoryPool::used, execution::memory::MemoryPool::available
     // @bounds any max; forced allocation a, resize target b with held + a, held + b < 2^62 (beyond that fetch_add wraps: physical-memory bound); environment interferes before every atomic access
